@@ -66,15 +66,45 @@ func c08Double(idx int) c08History {
 }
 
 const c08Quick2 = 600
-const c08ChunkQ = 25   // histories per batch (quick)
-const c08ChunkT = 200  // histories per batch (thorough, doubles)
-const c08RandomT = 256 // random long histories (thorough)
+const c08QuickNear = 600 // quick: two resizes close together with counts next to each other (seeded change C08-2)
+const c08ChunkQ = 25     // histories per batch (quick)
+const c08ChunkT = 200    // histories per batch (thorough, doubles)
+const c08RandomT = 256   // random long histories (thorough)
 
 func c08Batches(tier string) int {
 	if tier == "thorough" {
 		return (403+c08ChunkQ-1)/c08ChunkQ + (c08DoubleCount()+c08ChunkT-1)/c08ChunkT + c08RandomT/4
 	}
-	return (403+c08ChunkQ-1)/c08ChunkQ + c08Quick2/c08ChunkQ
+	return (403+c08ChunkQ-1)/c08ChunkQ + c08Quick2/c08ChunkQ + c08QuickNear/c08ChunkQ
+}
+
+// c08Near draws a two-resize history in which the second resize follows the first within
+// 0..2 ticks and the counts are neighbours of the previous count: the region where the
+// slots emptied or moved by the first resize are still as it left them.
+func c08Near(b *runner.Batch) c08History {
+	near := func(c int64) int64 {
+		var d int64
+		switch b.Rng.IntN(6) {
+		case 0:
+			d = 1
+		case 1:
+			d = -1
+		case 2:
+			d = 2
+		case 3:
+			d = -2
+		case 4:
+			d = 3
+		default:
+			return int64(b.Rng.IntN(c08MaxCount + 1))
+		}
+		return min(max(c+d, 0), c08MaxCount)
+	}
+	c1 := near(10) // the deployed default
+	c2 := near(c1)
+	t1 := int64(b.Rng.IntN(c08MaxEpoch + 1))
+	t2 := min(t1+int64(b.Rng.IntN(3)), c08MaxEpoch)
+	return c08History{resizes: []resize{{t1, c1}, {t2, c2}}, extra: 14}
 }
 
 func runC08(b *runner.Batch) {
@@ -87,12 +117,18 @@ func runC08(b *runner.Batch) {
 		hi := min(lo+c08ChunkQ, len(singles))
 		hs = singles[lo:hi]
 		b.HitN("single-resize-histories", len(hs))
-	case !b.Thorough():
+	case !b.Thorough() && b.Index < nSingleBatches+c08Quick2/c08ChunkQ:
 		// PRNG-chosen two-resize histories (determined by seed and batch index)
 		for i := 0; i < c08ChunkQ; i++ {
 			hs = append(hs, c08Double(b.Rng.IntN(c08DoubleCount())))
 		}
 		b.HitN("double-resize-histories", len(hs))
+	case !b.Thorough():
+		for i := 0; i < c08ChunkQ; i++ {
+			hs = append(hs, c08Near(b))
+		}
+		b.HitN("double-resize-histories", len(hs))
+		b.HitN("near-double-resize-histories", len(hs))
 	default:
 		k := b.Index - nSingleBatches
 		nDouble := (c08DoubleCount() + c08ChunkT - 1) / c08ChunkT
@@ -371,7 +407,7 @@ func init() {
 	})
 	runner.Register(&runner.Check{
 		ID: "C08", Level: "exploration",
-		Rule:        "Histories from the deploy state (count 10): epochs advance by one, every epoch's map is unique (a node named after the epoch joins both lists before tick e and leaves after tick e+2); quick = all 403 single-resize histories (count 0..12 x resize epoch 0..30) + 600 PRNG-chosen two-resize histories; thorough = all 83 824 two-resize histories + 256 random histories with 5 resizes. After every resize and every later tick a read sweep (snapshot(d) d=0..14, snapshotByEpoch and listNodes for 17 epochs around the window, netmap) is compared with the model's retention windows, and the raw storage is scanned for ring slots / structured lists outside the window. distinct = (old count, new count, epoch, window, outcome) for resizes and (count, windows) for ticks after a resize.",
+		Rule:        "Histories from the deploy state (count 10): epochs advance by one, every epoch's map is unique (a node named after the epoch joins both lists before tick e and leaves after tick e+2); quick = all 403 single-resize histories (count 0..12 x resize epoch 0..30) + 600 PRNG-chosen two-resize histories + 600 PRNG-chosen 'near' two-resize histories (second resize 0-2 ticks after the first, counts within 3 of the previous count); thorough = all 83 824 two-resize histories + 256 random histories with 5 resizes. After every resize and every later tick a read sweep (snapshot(d) d=0..14, snapshotByEpoch and listNodes for 17 epochs around the window, netmap) is compared with the model's retention windows, and the raw storage is scanned for ring slots / structured lists outside the window. distinct = (old count, new count, epoch, window, outcome) for resizes and (count, windows) for ticks after a resize.",
 		Assumptions: append(tb, "a resize that faults is not judged beyond 'changed nothing' (the statement constrains accepted counts)"),
 		Batches:     c08Batches, Chunk: 1,
 		Floors: []string{"resize-accepted:grow", "resize-accepted:shrink", "resize-accepted:shrink-before-wrap", "shrink-after-wrap", "window-full-after-resize", "resize-refused:same", "legacy-read-inside-window", "structured-read-inside-window", "structured-read-outside-window"},
